@@ -26,7 +26,7 @@ template <class M> std::string pending_check(M &m, IoStats &is) {
 }
 
 // simple tet / hex builders driven by the same op list
-template <class M> void build_simplicial(M &m, const Program &prog, bool hex, bool &pending_seen, std::string &fail, IoStats &is) {
+template <class M, class Pend> void build_simplicial(M &m, const Program &prog, bool hex, bool &pending_seen, std::string &fail, IoStats &is, Pend pend) {
   using Vec = typename M::PointT;
   int vcount = 0;
   auto addv = [&]() { ++vcount; return m.add_vertex(Vec((double)vcount, (double)((vcount * 7) % 5) + 0.5, (double)((vcount * 3) % 11))); };
@@ -56,9 +56,12 @@ template <class M> void build_simplicial(M &m, const Program &prog, bool hex, bo
     case O_EN_FAST: m.enable_fast_deletion(op.a[0] & 1); break;
     default: break;
     }
-    if (m.needs_garbage_collection() && !pending_seen && fail.empty()) { pending_seen = true; fail = pending_check(m, is); }
+    if (m.needs_garbage_collection() && !pending_seen && fail.empty()) { pending_seen = true; fail = pend(m, is); }
   }
   m.enable_deferred_deletion(false);
+}
+template <class M> void build_simplicial(M &m, const Program &prog, bool hex, bool &pending_seen, std::string &fail, IoStats &is) {
+  build_simplicial(m, prog, hex, pending_seen, fail, is, [](M &mm, IoStats &s) { return pending_check(mm, s); });
 }
 
 inline void bulk(PolyMesh &m, const Op &op, IoStats &is) {
